@@ -951,6 +951,312 @@ func (h *c17H) exec(line string) {
 	}
 }
 
+
+// ---------------------------------------------------------------- single-field twins
+
+type c17Twin struct {
+	field string
+	mut   func(s *xl.Style)
+}
+
+func c17CopyStyle(s *xl.Style) *xl.Style {
+	c, _ := c17DecStyle(strings.Fields(c17EncStyle(s)))
+	return c
+}
+
+// c17Twins lists, for every field of Style that takes part in a definition, a change of exactly
+// that field (the mutators make the field differ from whatever the base holds).
+func c17Twins() []c17Twin {
+	font := func(f func(*xl.Font)) func(*xl.Style) {
+		return func(s *xl.Style) {
+			if s.Font == nil {
+				s.Font = &xl.Font{}
+			}
+			f(s.Font)
+		}
+	}
+	align := func(f func(*xl.Alignment)) func(*xl.Style) {
+		return func(s *xl.Style) {
+			if s.Alignment == nil {
+				s.Alignment = &xl.Alignment{}
+			}
+			f(s.Alignment)
+		}
+	}
+	prot := func(f func(*xl.Protection)) func(*xl.Style) {
+		return func(s *xl.Style) {
+			if s.Protection == nil {
+				s.Protection = &xl.Protection{}
+			}
+			f(s.Protection)
+		}
+	}
+	other := func(cur string, a, b string) string {
+		if cur == a {
+			return b
+		}
+		return a
+	}
+	border0 := func(f func(*xl.Border)) func(*xl.Style) {
+		return func(s *xl.Style) {
+			if len(s.Border) == 0 {
+				s.Border = []xl.Border{{Type: "left", Color: "112233", Style: 1}}
+			}
+			s.Border = append([]xl.Border(nil), s.Border...)
+			// the entry that decides its side is the last one of that kind: change the last entry
+			f(&s.Border[len(s.Border)-1])
+		}
+	}
+	currency := func(f func(*xl.Style)) func(*xl.Style) {
+		return func(s *xl.Style) { s.CustomNumFmt = nil; f(s) }
+	}
+	return []c17Twin{
+		{"Font(nil/set)", func(s *xl.Style) {
+			if s.Font == nil {
+				s.Font = &xl.Font{Bold: true}
+			} else {
+				s.Font = nil
+			}
+		}},
+		{"Font.Bold", font(func(f *xl.Font) { f.Bold = !f.Bold })},
+		{"Font.Italic", font(func(f *xl.Font) { f.Italic = !f.Italic })},
+		{"Font.Strike", font(func(f *xl.Font) { f.Strike = !f.Strike })},
+		{"Font.Underline", font(func(f *xl.Font) { f.Underline = other(f.Underline, "single", "double") })},
+		{"Font.Family", font(func(f *xl.Font) { f.Family = other(f.Family, "Arial", "Courier New") })},
+		{"Font.Size", font(func(f *xl.Font) {
+			if f.Size == 12 {
+				f.Size = 14
+			} else {
+				f.Size = 12
+			}
+		})},
+		{"Font.Color", font(func(f *xl.Font) { f.Color = other(f.Color, "FF0000", "00FF00") })},
+		{"Font.ColorIndexed", font(func(f *xl.Font) {
+			if f.ColorIndexed == 5 {
+				f.ColorIndexed = 6
+			} else {
+				f.ColorIndexed = 5
+			}
+		})},
+		{"Font.ColorTheme", font(func(f *xl.Font) {
+			t := 4
+			if f.ColorTheme != nil && *f.ColorTheme == 4 {
+				t = 5
+			}
+			f.ColorTheme = &t
+		})},
+		{"Font.ColorTint", font(func(f *xl.Font) {
+			if f.ColorTint == 0.5 {
+				f.ColorTint = -0.25
+			} else {
+				f.ColorTint = 0.5
+			}
+		})},
+		{"Font.VertAlign", font(func(f *xl.Font) { f.VertAlign = other(f.VertAlign, "superscript", "subscript") })},
+		{"Fill.Type", func(s *xl.Style) {
+			if s.Fill.Type == "pattern" {
+				s.Fill = xl.Fill{Type: "gradient", Shading: 1, Color: []string{"112233", "445566"}}
+			} else {
+				s.Fill = xl.Fill{Type: "pattern", Pattern: 1, Color: []string{"112233"}}
+			}
+		}},
+		{"Fill.Pattern", func(s *xl.Style) {
+			if s.Fill.Type != "pattern" || s.Fill.Pattern < 0 || s.Fill.Pattern > 18 {
+				s.Fill = xl.Fill{Type: "pattern", Pattern: 1, Color: []string{"112233"}}
+			}
+			s.Fill.Pattern = (s.Fill.Pattern + 1) % 19
+		}},
+		{"Fill.Shading", func(s *xl.Style) {
+			if s.Fill.Type != "gradient" || len(s.Fill.Color) != 2 || s.Fill.Shading < 0 || s.Fill.Shading > 16 {
+				s.Fill = xl.Fill{Type: "gradient", Shading: 1, Color: []string{"112233", "445566"}}
+			}
+			s.Fill.Shading = (s.Fill.Shading + 1) % 17
+		}},
+		{"Fill.Color[0]", func(s *xl.Style) {
+			if (s.Fill.Type != "pattern" && s.Fill.Type != "gradient") || len(s.Fill.Color) == 0 {
+				s.Fill = xl.Fill{Type: "pattern", Pattern: 1, Color: []string{"112233"}}
+			}
+			s.Fill.Color = append([]string(nil), s.Fill.Color...)
+			s.Fill.Color[0] = other(s.Fill.Color[0], "A1B2C3", "3C2B1A")
+		}},
+		{"Fill.Color[1]", func(s *xl.Style) {
+			if s.Fill.Type != "gradient" || len(s.Fill.Color) != 2 || s.Fill.Shading < 0 || s.Fill.Shading > 16 {
+				s.Fill = xl.Fill{Type: "gradient", Shading: 1, Color: []string{"112233", "445566"}}
+			}
+			s.Fill.Color = append([]string(nil), s.Fill.Color...)
+			s.Fill.Color[1] = other(s.Fill.Color[1], "A1B2C3", "3C2B1A")
+		}},
+		{"Border(+side)", func(s *xl.Style) {
+			have := map[string]bool{}
+			for _, b := range s.Border {
+				have[b.Type] = true
+			}
+			for _, t := range []string{"left", "right", "top", "bottom", "diagonalUp", "diagonalDown"} {
+				if !have[t] && !(strings.HasPrefix(t, "diagonal") && (have["diagonalUp"] || have["diagonalDown"])) {
+					s.Border = append(append([]xl.Border(nil), s.Border...), xl.Border{Type: t, Color: "0000FF", Style: 2})
+					return
+				}
+			}
+			s.Border = nil
+		}},
+		{"Border.Type", border0(func(b *xl.Border) { b.Type = other(b.Type, "top", "bottom") })},
+		{"Border.Style", border0(func(b *xl.Border) {
+			if b.Style < 0 || b.Style > 13 {
+				b.Style = 1
+			}
+			b.Style = b.Style%13 + 1
+		})},
+		{"Border.Color", border0(func(b *xl.Border) {
+			if b.Style < 0 || b.Style > 13 {
+				b.Style = 1
+			}
+			b.Color = other(b.Color, "A1B2C3", "3C2B1A")
+		})},
+		{"Alignment(nil/set)", func(s *xl.Style) {
+			if s.Alignment == nil {
+				s.Alignment = &xl.Alignment{Horizontal: "right"}
+			} else {
+				s.Alignment = nil
+			}
+		}},
+		{"Alignment.Horizontal", align(func(a *xl.Alignment) { a.Horizontal = other(a.Horizontal, "center", "right") })},
+		{"Alignment.Indent", align(func(a *xl.Alignment) { a.Indent++ })},
+		{"Alignment.JustifyLastLine", align(func(a *xl.Alignment) { a.JustifyLastLine = !a.JustifyLastLine })},
+		{"Alignment.ReadingOrder", align(func(a *xl.Alignment) { a.ReadingOrder++ })},
+		{"Alignment.RelativeIndent", align(func(a *xl.Alignment) { a.RelativeIndent++ })},
+		{"Alignment.ShrinkToFit", align(func(a *xl.Alignment) { a.ShrinkToFit = !a.ShrinkToFit })},
+		{"Alignment.TextRotation", align(func(a *xl.Alignment) { a.TextRotation += 15 })},
+		{"Alignment.Vertical", align(func(a *xl.Alignment) { a.Vertical = other(a.Vertical, "top", "center") })},
+		{"Alignment.WrapText", align(func(a *xl.Alignment) { a.WrapText = !a.WrapText })},
+		{"Protection(nil/set)", func(s *xl.Style) {
+			if s.Protection == nil {
+				s.Protection = &xl.Protection{Locked: true}
+			} else {
+				s.Protection = nil
+			}
+		}},
+		{"Protection.Hidden", prot(func(p *xl.Protection) { p.Hidden = !p.Hidden })},
+		{"Protection.Locked", prot(func(p *xl.Protection) { p.Locked = !p.Locked })},
+		{"NumFmt(built-in)", currency(func(s *xl.Style) {
+			if s.NumFmt == 3 {
+				s.NumFmt = 10
+			} else {
+				s.NumFmt = 3
+			}
+		})},
+		{"NumFmt(locale)", currency(func(s *xl.Style) {
+			if s.NumFmt == 27 {
+				s.NumFmt = 28
+			} else {
+				s.NumFmt = 27
+			}
+		})},
+		{"NumFmt(currency)", currency(func(s *xl.Style) {
+			if s.NumFmt == 166 {
+				s.NumFmt = 167
+			} else {
+				s.NumFmt = 166
+			}
+		})},
+		{"DecimalPlaces(currency)", currency(func(s *xl.Style) {
+			if _, ok := xl.VerifC17CurrencyNumFmt(s.NumFmt); !ok {
+				s.NumFmt = 165
+			}
+			d := 3
+			if s.DecimalPlaces != nil && *s.DecimalPlaces == 3 {
+				d = 1
+			}
+			s.DecimalPlaces = &d
+		})},
+		{"NegRed(currency)", currency(func(s *xl.Style) {
+			if _, ok := xl.VerifC17CurrencyNumFmt(s.NumFmt); !ok {
+				s.NumFmt = 165
+			}
+			s.NegRed = !s.NegRed
+		})},
+		{"CustomNumFmt", func(s *xl.Style) {
+			c := "0.0000"
+			if s.CustomNumFmt != nil && *s.CustomNumFmt == c {
+				c = "#,##0.0"
+			}
+			s.CustomNumFmt = &c
+		}},
+	}
+}
+
+// twinCase registers a base definition and a definition that differs from it in exactly one field
+// (in either order) on a new workbook. Oracles: each reads back its own normalised definition
+// (`readback`, in doNew) and, when the two normalised definitions differ, the ids differ (`twin:*`).
+func (h *c17H) twinCase(rng *Rng, base *xl.Style, tw c17Twin, prelude []string) {
+	a := c17CopyStyle(base)
+	tw.mut(a) // some mutators first move the base into the domain of the field
+	b := c17CopyStyle(a)
+	tw.mut(b)
+	if c17EncStyle(a) == c17EncStyle(b) {
+		return
+	}
+	if rng.Bool() {
+		a, b = b, a
+	}
+	h.exec("reset")
+	for _, l := range prelude {
+		h.exec(l)
+	}
+	la, lb := "new "+c17EncStyle(a), "new "+c17EncStyle(b)
+	h.exec(la)
+	h.exec(lb)
+	ida, oka := h.wb.issued[strings.TrimPrefix(la, "new ")]
+	idb, okb := h.wb.issued[strings.TrimPrefix(lb, "new ")]
+	h.r.Stat("twin:cases")
+	if oka && okb {
+		na, ea := c17Normalize(a, h.dec)
+		nb, eb := c17Normalize(b, h.dec)
+		if ea && eb && c17Canon(c17EncStyle(&na)) != c17Canon(c17EncStyle(&nb)) {
+			h.r.Stat("twin:distinct-required")
+			h.r.Stat("twin:required:" + tw.field)
+			if ida == idb {
+				h.r.Fail("twin:"+tw.field, fmt.Sprintf("two definitions that differ only in %s got the same id %d: %s / %s", tw.field, ida, la, lb), h.r.N, h.replay())
+			}
+		}
+	}
+	h.exec(fmt.Sprintf("get %d", ida))
+	h.exec(fmt.Sprintf("get %d", idb))
+	h.r.Case(strings.Join(h.wb.lines, "\n"), true)
+}
+
+func (h *c17H) twins(rng *Rng, nBases int) {
+	tws := c17Twins()
+	for i := 0; i < nBases; i++ {
+		var base *xl.Style
+		var prelude []string
+		switch {
+		case i == 0:
+			base = &xl.Style{}
+		case i == 1: // a full definition
+			th := 3
+			base = &xl.Style{Font: &xl.Font{Bold: true, Family: "Arial", Size: 10, Color: "333333", ColorTheme: &th},
+				Fill:   xl.Fill{Type: "pattern", Pattern: 1, Color: []string{"EEEEEE"}},
+				Border: []xl.Border{{Type: "left", Color: "000000", Style: 1}, {Type: "top", Color: "FF0000", Style: 2}},
+				Alignment:  &xl.Alignment{Horizontal: "left", Indent: 1, RelativeIndent: 1, ReadingOrder: 1, TextRotation: 30, Vertical: "bottom", WrapText: true},
+				Protection: &xl.Protection{Hidden: true, Locked: true}, NumFmt: 4}
+		default:
+			pal := c17GenPalette(rng)
+			base = c17GenStyle(rng, pal)
+			base.CustomNumFmt = nil
+			if base.Font != nil && (len(base.Font.Family) > 31 || base.Font.Size > 409) {
+				base.Font = nil
+			}
+			// unrelated definitions registered first, so that the tables are not empty
+			for k := rng.Intn(3); k > 0; k-- {
+				prelude = append(prelude, "new "+c17EncStyle(c17GenStyle(rng, pal)))
+			}
+		}
+		for _, tw := range tws {
+			h.twinCase(rng, base, tw, prelude)
+		}
+	}
+}
+
 // ---------------------------------------------------------------- generator
 
 var c17Colors = []string{"FF0000", "00ff00", "#0000FF", "#abcdef", "123456", "FFFFFF", "000000", "C0C0C0"}
@@ -1348,10 +1654,11 @@ func runC17(r *Run, rng *Rng, replay string) {
 		return
 	}
 	h.witnesses()
-	nReg, nGrid, nops := 260, 160, 26
+	nReg, nGrid, nops, nTwinBases := 260, 160, 26, 6
 	if r.Tier == "thorough" {
-		nReg, nGrid, nops = 3000, 1800, 40
+		nReg, nGrid, nops, nTwinBases = 3000, 1800, 40, 60
 	}
+	h.twins(rng, nTwinBases)
 	for i := 0; i < nReg; i++ {
 		h.genCase(rng, rng.Range(8, nops), false)
 	}
